@@ -230,7 +230,7 @@ class Engine(ExprMixin, CallMixin, BuiltinMixin, VerifyMixin):
             return n
         hook = getattr(self.reg, "coercions", {}).get((v.ty.key, ty.key))
         if hook is not None:
-            return core.ufun("sf_" + hook, [v], ty)
+            return core.ufun("sf_" + hook, [] if v.ty is NONE else [v], ty)
         if isinstance(v.ty, List) and isinstance(ty, List) and isinstance(ty.elem, Opt) and ty.elem.elem == v.ty.elem:
             # a list of T used where a list of Optional[T] is expected: the same elements, all present
             r = core.ufun("lift_opt", [v], ty)
